@@ -444,8 +444,10 @@ func (vx *Vaxis) Resize() {
 
 // Render renders the model's content to the terminal
 func (vx *Vaxis) Render() {
-	if atomicLoad(&vx.resize) {
-		defer atomicStore(&vx.resize, false)
+	// Clear the flag before reading the size. A resize which arrives while
+	// we are in here sets it again and is handled by the next Render;
+	// clearing it on the way out would lose that resize
+	if atomic.CompareAndSwapInt32(&vx.resize, 1, 0) {
 		ws, err := vx.reportWinsize()
 		if err != nil {
 			log.Error("couldn't report winsize: %v", err)
